@@ -389,6 +389,11 @@ class Builder:
                 self.seps.add(e.value)
                 if s.region == DEN:
                     self.event("second-slash", node, s)
+                if e.value.strip().startswith("1"):
+                    if s.last == FACTOR:
+                        self.event("one-after-factor", node, s)  # "m" + "1/" + "s"
+                elif s.last == EMPTY:
+                    self.event("leading-slash", node, s)  # "/s" instead of "1/s"
                 out.add(s.with_(region=DEN, last=SEP))
             elif kind == "start":
                 if s.last == FACTOR:
